@@ -160,6 +160,13 @@ class Session:
             pass
         self.rw = RecWriter()
         self.g.add_writer(self.rw.make())
+        # a second writer behind the recording one: it accepts everything, except that it raises DeviceError once when armed
+        # (a device link that fails on one statement; the recording writer has received the line by then)
+        self.fault_armed = False
+        self.g.add_writer(self._make_fault_writer())
+        self.probe_on = False               # the recorder's own bookkeeping of add_hook / remove_hook
+        self.mh = []                        # open move_hook() context managers
+        self._decoy(dp)
         self.g.set_resolution(1.0)          # interpolated paths stay short (tens of segments, not thousands)
         self.ctx = []
         self.raw_text = []
@@ -180,6 +187,44 @@ class Session:
         except Exception:
             self.gc = None
         self.init_rep = self.snapshot()
+
+    def _make_fault_writer(self):
+        from gscrib.excepts import DeviceError
+        from gscrib.writers import BaseWriter
+        outer = self
+
+        class _F(BaseWriter):
+            def connect(self):
+                return self
+
+            def disconnect(self, wait=True):
+                pass
+
+            def write(self, statement):
+                if outer.fault_armed:
+                    outer.fault_armed = False
+                    raise DeviceError("link failed on this statement")
+
+            def flush(self):
+                pass
+        return _F()
+
+    def _decoy(self, dp):
+        """Another builder, configured differently, living next to the one under test and used a little: nothing of it may
+        show in the recorded one (added after seed C01f: a formatter shared through a mutable default argument)."""
+        from gscrib import GCodeBuilder
+        d = GCodeBuilder(decimal_places=(dp + 2) % 7, comment_symbols="(", line_endings="\\r\\n", x_axis="A", y_axis="B", z_axis="C")
+        try:
+            while True:
+                d.remove_writer(d.get_writer(0))
+        except IndexError:
+            pass
+        d.add_writer(RecWriter().make())
+        d.set_distance_mode("relative")
+        d.move(x=1.2345678, F=321.5)
+        d.transform.translate(5, 5, 5)
+        d.set_bounds("feed-rate", 1, 2)
+        self.decoy = d
 
     # ------------------------------------------------------------------ state
     def snapshot(self):
@@ -273,7 +318,7 @@ class Session:
                     kw[name] = c
         for p in ("F", "S", "E", "R", "A"):
             if d.get(p) is not None:
-                kw[p] = d[p]
+                kw[p.lower() if d.get("lower") else p] = d[p]     # parameter letters are case-insensitive
         if d.get("comment") is not None:
             kw["comment"] = d["comment"]
         return kw
@@ -317,9 +362,9 @@ class Session:
         if c == "halt":
             kw = {}
             if d.get("S") is not None:
-                kw["S"] = d["S"]
+                kw["s" if d.get("lower") else "S"] = d["S"]
             if d.get("R") is not None:
-                kw["R"] = d["R"]
+                kw["r" if d.get("lower") else "R"] = d["R"]
             return g.halt(d["mode"], **kw)
         if c == "pause":
             return g.pause(bool(d.get("flag")))
@@ -342,10 +387,22 @@ class Session:
         if c == "add_probe_hook":
             if self.probe_hook is None:
                 self.probe_hook = self._make_probe_hook()
+            self.probe_on = True
             return g.add_hook(self.probe_hook)
         if c == "remove_probe_hook":
+            self.probe_on = False
             if self.probe_hook is not None:
                 return g.remove_hook(self.probe_hook)
+            return None
+        if c == "mh_enter":
+            # `with g.move_hook(h):` opened; hooks added or removed inside the block must survive its end
+            cm = g.move_hook(lambda origin, target, params, state: params)
+            cm.__enter__()
+            self.mh.append(cm)
+            return None
+        if c == "mh_exit":
+            if self.mh:
+                self.mh.pop().__exit__(None, None, None)
             return None
         if c == "add_scale_hook":
             # a user hook that RETURNS A NEW DICT with F and S multiplied by three (the hook contract allows either style):
@@ -500,6 +557,8 @@ class Session:
 
     def apply(self, d):
         eh_before = self.ext_hook is not None
+        fault = bool(d.get("fault"))
+        self.fault_armed = fault
         sh_before = self.scale_hook is not None and self._hook_registered(self.scale_hook)      # in force DURING this call
         self.hook_log.clear()
         xf = self.observe_xf() if self.with_xf else None
@@ -508,6 +567,8 @@ class Session:
             self._dispatch(d)
         except Exception as e:  # every exception type is an outcome to be judged by the contract
             out = type(e).__name__
+        fault = fault and not self.fault_armed     # it counts only if the armed writer was reached
+        self.fault_armed = False
         ev = {
             "call": d["call"] if d["call"] != "trace" else "trace_" + d["shape"],
             "out": out,
@@ -515,7 +576,8 @@ class Session:
             "lines": self.lines_of(self.rw.take()),
             "rep": self.snapshot(),
             "hooks": [dict(h) for h in self.hook_log],
-            "ph": self.probe_hook is not None and self._hook_registered(self.probe_hook),
+            "ph": self.probe_on,                      # after the call, by the recorder's own bookkeeping of add_hook / remove_hook
+            "fault": fault,
             "sh": sh_before,
             "eh": bool(self.ext_hook is not None and eh_before),
             "ehp": dict(self.ext_params),
